@@ -1,5 +1,6 @@
 //! uec-harness: correspondence harness between /repo's crates and the Lean models.
 mod driver;
+mod fam_dyn;
 mod fam_ops;
 mod fam_res;
 mod fam_sel;
@@ -45,6 +46,7 @@ fn main() {
         "sel" => fam_sel::run(&cfg),
         "ops" => fam_ops::run(&cfg),
         "res" => fam_res::run(&cfg),
+        "dyn" => fam_dyn::run(&cfg),
         f => { eprintln!("unknown family {f}"); std::process::exit(2) }
     };
     let js = serde_json::to_string_pretty(&rep.to_json()).unwrap();
